@@ -133,3 +133,57 @@ def last_seg(path):
 
 def fold(s):
     return s.replace("_", "").lower()
+
+
+# ------------------------------------------------------------------ finite pattern evaluation
+def pat_matches(p, value):
+    """Does HIR pattern p match the constructor tree `value` = (variant_name, sub_values...)?
+    Returns True / False / None (unknown pattern form)."""
+    k = p.get("k")
+    if k in ("Wild",):
+        return True
+    if k == "Bind":
+        return pat_matches(p["sub"], value) if "sub" in p else True
+    if k in ("Ref", "Box", "Deref"):
+        return pat_matches(p["p"], value)
+    if k == "Or":
+        rs = [pat_matches(x, value) for x in p["ps"]]
+        if any(r is True for r in rs):
+            return True
+        if any(r is None for r in rs):
+            return None
+        return False
+    if k == "Path":
+        return last_seg(p["path"].get("ctor_of") or p["path"].get("def") or "") == value[0]
+    if k == "TupleStruct":
+        if last_seg(p["path"].get("ctor_of") or p["path"].get("def") or "") != value[0]:
+            return False
+        subs = value[1:]
+        if p.get("ddpos") is not None:
+            return True if all(pat_matches(x, v) for x, v in zip(p["ps"], subs)) else False
+        if len(p["ps"]) != len(subs):
+            return None
+        rs = [pat_matches(x, v) for x, v in zip(p["ps"], subs)]
+        if all(r is True for r in rs):
+            return True
+        if any(r is False for r in rs):
+            return False
+        return None
+    if k == "Struct":
+        if last_seg(p["path"].get("ctor_of") or p["path"].get("def") or "") != value[0]:
+            return False
+        return True
+    return None
+
+
+def select_arm(match, value):
+    """First arm of a HIR match whose pattern matches the constructor tree (guards unsupported)."""
+    for i, a in enumerate(match["arms"]):
+        if "guard" in a:
+            return None
+        r = pat_matches(a["pat"], value)
+        if r is None:
+            return None
+        if r:
+            return i
+    return None
